@@ -765,7 +765,7 @@ def run(res, tier, seed):
         if not ok:
             failed.append(("coqchk", "coqchk did not accept the compiled development"))
 
-    n = int(os.environ.get("VERIF_N") or (340 if tier == "quick" else 4000))
+    n = int(os.environ.get("VERIF_N") or (300 if tier == "quick" else 4000))
     t1 = time.time()
     wit = witness_cases()
     t0 = time.time()
@@ -881,7 +881,8 @@ def run(res, tier, seed):
         def still(cand):
             o = run_impl([cand], "shrink")
             return bool(eval_cases(o, variant, "Shrink", svariant=svariant)["agree"])
-        small = shrink_case(c, still) if len(pure_dis) < 60 else c
+        # (a many-files case is reported as it is: every shrink step would re-run hundreds of files)
+        small = shrink_case(c, still) if (len(pure_dis) < 60 and len(c["files"]) <= 40) else c
         small_out = run_impl([{k: v for k, v in small.items() if k != "obs"}], "shrink")
         rr = eval_cases(small_out, variant, "Shrink", svariant=svariant)
         res.violation("model and implementation disagree on a delete request",
